@@ -1,6 +1,5 @@
 (* Proofs/HandlersProc.v — the processors' byte-access skeletons never panic and terminate;
-   ICMPv4 logger outside / inside the embedded-header class, ICMPv6 outside the NDP option
-   classes. *)
+   ICMPv4 logger outside / inside the embedded-header class, ICMPv6 total (NDP options repaired). *)
 From PV Require Import Base.Prelude Base.Slice Model.NDPOptions Model.MiscDecoders Model.HandlersProc.
 From PV Require Import Proofs.HandlersTac Proofs.NDPOptions Proofs.MiscDecoders.
 Open Scope N_scope.
@@ -90,12 +89,10 @@ Lemma icmp4_nonvacuous :
 Proof. split; vm_compute; reflexivity. Qed.
 
 (* ---------------------------------------------------------------- ICMPv6 *)
-Theorem icmp6_process_partial lbl_ok p ra_processed : wf p ->
-  (nth 0 (arr p) 0 = 134 -> ra_processed = true ->
-   known_C08_ndp_zero (mkSlice (skipn 16 (arr p)) (len p - 16)) = ZNone) ->
+Theorem icmp6_process_total lbl_ok p ra_processed : wf p ->
   forall fuel, (len p < fuel)%nat -> safe (icmp6_process lbl_ok fuel ra_processed p).
 Proof.
-  intros Hw Hk fuel Hf. unfold icmp6_process.
+  intros Hw fuel Hf. unfold icmp6_process.
   destruct (Nat.ltb_spec (len p) 8); [sdone|].
   rewrite idx_ok by lia. cbn [bind]. unfold wf in Hw.
   destruct (nth 0 (arr p) 0 =? 136).
@@ -109,8 +106,7 @@ Proof.
   destruct (nth 0 (arr p) 0 =? 134) eqn:E134.
   { destruct (Nat.ltb_spec (len p) 16); [sdone|].
     destruct ra_processed; cbn [negb]; [|sdone].
-    apply N.eqb_eq in E134.
-    apply safe_bind; [apply ra_options_partial; [exact Hw|apply Hk; [exact E134|reflexivity]|exact Hf]|].
+    apply safe_bind; [apply ra_options_total; [exact Hw|exact Hf]|].
     intros _ _.
     rewrite !idx_ok by lia. cbn [bind]. rewrite be16_at_ok by lia. cbn [bind].
     rewrite !be32_at_ok by lia. cbn [bind]. sdone. }
